@@ -33,9 +33,9 @@ PROPS['C16'] = {
 PARSER_TRUST = ['A4 the scanner is an arbitrary deterministic token source: Scanner::future() is an uninterpreted finite token sequence and Parser::scan_next_token (external_body, 8 lines, no panic site) is assumed to deliver its head / fail when it is empty; hence results hold for every token stream']
 
 PROPS['C01'] = {
-    'units': ['parser'],
+    'units': ['parser', 'loader'],
     'level': 'proof',
-    'claim': 'Panic-freedom and termination as verifier-generated obligations on the real code: every unwrap/expect/unreachable!/assert_eq!/overflow site of parser.rs (pop_state, fetch_token, the four unreachable!() of parse_node, State::End arm, load_node unreachable!, load_document assert_eq!) is discharged from the state-stack invariant and the event grammar; the token loops of document_start and parser_process_directives carry decreases clauses; every delivered event strictly decreases the measure 4*|upcoming tokens| + rank(state, next token), which gives termination of load / load_node / load_sequence / load_mapping (loop and recursion decreases clauses). char_traits.rs, all 34 Input trait methods (provided ones against the abstract input contract), the StrInput char-iterator methods and the scanner position helpers are verified panic-free under their contracts. All token streams / all inputs, no bound.',
+    'claim': 'Panic-freedom and termination as verifier-generated obligations on the real code: every unwrap/expect/unreachable!/assert_eq!/overflow site of parser.rs (pop_state, fetch_token, the four unreachable!() of parse_node, State::End arm, load_node unreachable!, load_document assert_eq!) is discharged from the state-stack invariant and the event grammar; the token loops of document_start and parser_process_directives carry decreases clauses; every delivered event strictly decreases the measure 4*|upcoming tokens| + rank(state, next token), which gives termination of load / load_node / load_sequence / load_mapping (loop and recursion decreases clauses). char_traits.rs, all 34 Input trait methods (provided ones against the abstract input contract), the StrInput char-iterator methods and the scanner position helpers are verified panic-free under their contracts. The scanner's token pump (fetch_next_token, fetch_more_tokens with the decreases clause pump_measure, next_token) and everything it calls except scan_block_scalar's body is verified panic-free and terminating under the scanner invariant sc_inv. Unit loader: every unwrap / unreachable! of YamlLoader::on_event and insert_new_node is discharged from the admissibility of the event. All token streams / all inputs, no bound.',
     'technique': 'Verus: safety obligations (unwrap, unreachable!, assert_eq!, arithmetic) discharged from contracts and invariants; decreases clauses for termination',
     'not_decided': [
         'linear work bound (no cost model in the verifier)',
@@ -147,6 +147,32 @@ PROPS['C08'] = {
     'checker_cmd': 'cargo kani -Z function-contracts -Z stubbing --harness c08_...',
     'not_decided': ['strings longer than the bound and characters outside the alphabet', 'boundary integers around +-2^63 beyond the length bound', 'the value of decimal floats (std dec2flt, stubbed)', 'value_from_cow_and_metadata -> BadValue mapping in macros.rs and the early_parse switch of the loader (C19/C07 scope)'],
     'trust': ['ASSUMED contract of <f64 as FromStr>::from_str (grammar from the std documentation; stub in kani/scalar_harness.rs)'],
+}
+
+LOADER_TRUST = ['stand-ins in contracts/prelude_loader.vrs (ASSUMED models, A5): saphyr_parser::{Event, Span, ScalarStyle, Tag, Parser, SpannedEventReceiver}, saphyr::Yaml / Mapping, hashlink::LinkedHashMap (insert: append, or keep the first key, replace the value and move to the back - from the 0.10 source), vstd specs of Vec / BTreeMap / Option',
+                'ASSUMED of every node type (trait proof obligations without body): a clone denotes the same tree; keys compare equal exactly when they denote the same tree; the key made from a node denotes the node\'s tree',
+                'the contracts of the LoadableYamlNode methods (from_bare_yaml, is_*, sequence_mut, mapping_mut, take, with_span) bind the four node types; their implementations are macro-generated / hand-written outside this unit and are only checked at leaf level under C19',
+                'recv_pre (the event is admissible in the current nesting) is owed by the producer: Parser::load is verified in unit `parser` to emit a well-nested sentence (C02), but the correspondence between its grammar configuration and the loader\'s stack is by inspection, not mechanised',
+                'rewrite R10: `key.into()` -> `Node::verif_into_key(key)` (an external_body helper that calls `.into()`; Verus has no specification for the blanket Into impl)']
+
+PROPS['C07'] = {
+    'units': ['loader'],
+    'level': 'proof',
+    'claim': 'The real YamlLoader (saphyr/src/loader.rs, generic in the node type) is verified against an abstract loader written from the property statement: state = (finished documents, open collections with their anchor ids, per open mapping the key waiting for its value, completed anchored nodes) over abstract trees; on_event performs exactly l_step(state, event) for every event - DocumentEnd appends the root (BadValue for an empty document), a finished node goes to its parent as next sequence item / key / value (later value wins, the pair moves to the back) or becomes the root, an alias is a copy of the completed anchored node or BadValue while that node is still open, a scalar is bare_tree(resolve(text, style, tag)) or its representation with deferred resolution; into_documents returns the documents in stream order; Default starts empty.  No unwrap / unreachable! of the loader can fire for an admissible event (C01).  For all event sequences and all node types that meet the trait contracts, no bound.',
+    'technique': 'Verus: data structure against an abstract view (abs()) with a functional step oracle (l_step / l_complete / tmap_insert); trait-level contracts for the node type; &mut-returning trait methods specified through final()',
+    'not_decided': ['that the producer really calls on_event once per event in order and stops at the first error (Parser::load: unit parser, C17/C02) - "a load fails exactly when the parser reports an error" is the `?` in load_from_parser, which is outside this unit', 'the four implementations of LoadableYamlNode against the trait contracts (leaf level: C19)', 'which value the resolver chooses (C08)'],
+    'trust': LOADER_TRUST,
+}
+
+PROPS['C09'] = {
+    'units': [],
+    'extra': ['kengine'],
+    'level': 'model_checking',
+    'claim': 'BOUNDED (Kani/CBMC on the real functions, not a proof; the two string mechanisms of the round trip only): (1) need_quotes: every string of length 1..3 (quick; ..4 thorough) over the alphabet of the property, and 13 type-like words, that the emitter writes unquoted is not a core-schema null/bool/int/float literal - so it reloads as the same string (the resolver is checked against the same oracle under C08) - and is a legal one-line plain scalar; (2) escape_str: for every ASCII string of length 1..3 the output is a single-line double-quoted scalar that decodes back to the original.',
+    'technique': 'Kani bounded harnesses on the real need_quotes / escape_str against executable oracles written from YAML 1.2 (7.3.3 plain scalars, 5.7 escapes, 10.3.2 core schema)',
+    'checker_cmd': 'cargo kani -Z function-contracts -Z stubbing --harness c09_...',
+    'not_decided': ['the round trip as a whole (emit_node / emit_val layout, indentation, compact and multiline_strings settings, collection keys): no contract within reach states "the emitted text parses back"', 'floats: what write!("{v}") produces is beyond CBMC even for concrete values; observed on the real code and NOT decided or repaired here: 1.0 is written as "1" and -0.0 as "-0", which reload as integers', 'non-ASCII strings in escape_str (copied through unchanged by its catch-all arm), strings longer than the bounds', 'emitting the reloaded tree reproduces the same text'],
+    'trust': ['ASSUMED contract of <f64 as FromStr>::from_str (grammar from the std documentation; stub in kani/emitter_harness.rs)', 'the plain-scalar and core-schema oracles are transcriptions of the YAML 1.2 productions (the core-schema one is the oracle the real resolver is checked against under C08)'],
 }
 
 PROPS['C19'] = {
